@@ -180,6 +180,10 @@ func genConsts(host *target, facts map[string]interface{}) error {
 		tf.GoarchRow = g
 	}
 
+	uapiAll, err := uapiAllOracle()
+	if err != nil {
+		return err
+	}
 	uapi, uapiSrc, err := uapiOracle()
 	if err != nil {
 		return err
@@ -268,6 +272,15 @@ func genConsts(host *target, facts map[string]interface{}) error {
 	}
 	b.WriteString("]\n\n")
 
+	b.WriteString("/-- every object-like macro SECCOMP_* / PR_* of the installed linux/seccomp.h and linux/prctl.h that is an integer expression -/\ndef uapiAll : List (String × Nat) := [\n")
+	for i, kv := range uapiAll {
+		sep := ","
+		if i == len(uapiAll)-1 {
+			sep = ""
+		}
+		fmt.Fprintf(&b, "  (%s, %s)%s\n", leanString(kv.Name), fmt.Sprintf("%d", kv.Val), sep)
+	}
+	b.WriteString("]\n\n")
 	b.WriteString("/-- values of the installed Linux UAPI headers, printed by a C program compiled with gcc\n    (linux/seccomp.h, linux/prctl.h, errno.h, asm/unistd.h, offsetof/sizeof over struct seccomp_data) -/\n")
 	b.WriteString("def uapi : List (String × Nat) := [\n")
 	for i, kv := range uapi {
@@ -283,6 +296,7 @@ func genConsts(host *target, facts map[string]interface{}) error {
 	facts["targets"] = res
 	facts["targetListKind"] = *targets
 	facts["uapi"] = uapi
+	facts["uapiAll"] = uapiAll
 	facts["uapiSource"] = uapiSrc
 	facts["tableSizes"] = sizes
 	return nil
@@ -647,6 +661,92 @@ int main(void) {
   return 0;
 }
 `
+
+// uapiAllOracle evaluates EVERY object-like macro named SECCOMP_* or PR_* of the installed
+// linux/seccomp.h and linux/prctl.h (names found with `gcc -dM -E`, values printed by a C
+// program): the constants of internal/unix are compared with the macro of the same name whatever
+// constants the package declares, so that a constant added later is checked too.
+func uapiAllOracle() ([]uapiVal, error) {
+	dir, err := os.MkdirTemp("", "vextract-uapiall")
+	if err != nil {
+		return nil, err
+	}
+	defer os.RemoveAll(dir)
+	inc := "#include <linux/seccomp.h>\n#include <linux/prctl.h>\n#include <sys/ioctl.h>\n"
+	hfile := filepath.Join(dir, "names.c")
+	if err := os.WriteFile(hfile, []byte(inc), 0o644); err != nil {
+		return nil, err
+	}
+	out, err := exec.Command("gcc", "-dM", "-E", hfile).Output()
+	if err != nil {
+		return nil, fmt.Errorf("uapi oracle: gcc -dM -E: %v", err)
+	}
+	var names []string
+	for _, l := range strings.Split(string(out), "\n") {
+		f := strings.Fields(l)
+		if len(f) < 3 || f[0] != "#define" || strings.Contains(f[1], "(") {
+			continue
+		}
+		if strings.HasPrefix(f[1], "SECCOMP_") || strings.HasPrefix(f[1], "PR_") {
+			names = append(names, f[1])
+		}
+	}
+	sort.Strings(names)
+	for attempt := 0; attempt < 6; attempt++ {
+		var src strings.Builder
+		src.WriteString("#include <stdio.h>\n" + inc + "#define P(x) printf(\"%s %llu\\n\", #x, (unsigned long long)(x))\nint main(void) {\n")
+		first := strings.Count(src.String(), "\n") + 1
+		for _, n := range names {
+			fmt.Fprintf(&src, "  P(%s);\n", n)
+		}
+		src.WriteString("  return 0;\n}\n")
+		cfile := filepath.Join(dir, "all.c")
+		if err := os.WriteFile(cfile, []byte(src.String()), 0o644); err != nil {
+			return nil, err
+		}
+		bin := filepath.Join(dir, "all")
+		msg, err := exec.Command("gcc", "-O0", "-w", "-o", bin, cfile).CombinedOutput()
+		if err != nil {
+			// drop the names whose lines do not compile (macros that are not integer expressions)
+			bad := map[int]bool{}
+			for _, l := range strings.Split(string(msg), "\n") {
+				var ln, col int
+				if i := strings.Index(l, "all.c:"); i >= 0 {
+					if n, _ := fmt.Sscanf(l[i:], "all.c:%d:%d", &ln, &col); n >= 1 {
+						bad[ln-first] = true
+					}
+				}
+			}
+			if len(bad) == 0 {
+				return nil, fmt.Errorf("uapi oracle (all): gcc: %v: %s", err, msg)
+			}
+			var keep []string
+			for i, n := range names {
+				if !bad[i] {
+					keep = append(keep, n)
+				}
+			}
+			names = keep
+			continue
+		}
+		res, err := exec.Command(bin).Output()
+		if err != nil {
+			return nil, fmt.Errorf("uapi oracle (all): run: %v", err)
+		}
+		var vals []uapiVal
+		for _, l := range strings.Split(strings.TrimSpace(string(res)), "\n") {
+			f := strings.Fields(l)
+			if len(f) != 2 {
+				continue
+			}
+			if v, err := strconv.ParseUint(f[1], 10, 64); err == nil {
+				vals = append(vals, uapiVal{f[0], v})
+			}
+		}
+		return vals, nil
+	}
+	return nil, fmt.Errorf("uapi oracle (all): the program does not compile")
+}
 
 // uapiOracle compiles and runs the C program against the installed kernel headers.
 func uapiOracle() ([]uapiVal, string, error) {
